@@ -52,6 +52,16 @@ CHECKS = {
          "For 12.5k/0.3M generated programs (C09's templates in every literal/variable mask, all || && ?: ! trees with <=2/3 internal nodes over 4 atoms, match with 0..2/3 cases x 6 patterns x 6 arms x 4 scrutinees, f-strings, macros with branching bodies, chains) every block incl. nested code blocks is explored over ALL paths: every reachable (pc, height) state, jump targets in range and forward, no pop from an empty stack, one height per pc, height 1 at the end. Every real execution under every assignment of up to 3 variables over 4 values is replayed against the model (same heights, only model edges). All instruction sequences of length 1..3/4 over 7 plain instructions and jmp/jmp-if with every forward distance and 3 out-of-range distances are loaded through the public deserialiser and compared with a reference VM. Evidence reports states, transitions, blocks, traces validated and model edges covered.",
          "Trusted: the trace hook (feature rscel_verif). A disagreement between the stack-effect table and the VM is a machinery error (exit 2), not a verdict.",
          "DESIGN.md section 3, C10"),
+ "C11": ("model_checking",
+         "explicit-state search over operation histories whose transitions are executed on the real CelContext/BindContext objects (states re-derived by replaying the history), deduplicated breadth-first search plus every history up to a depth without deduplication, against a map-based reference model and freshly built objects",
+         "Model: two contexts (3 program names, 10 colliding sources) and two binding sets (2 variables, 4 values); 20 operations (add/replace, bind/rebind, clone context, clone bindings, exec, inspect). Breadth-first search to depth 6/12 deduplicated on the canonical abstract state with every transition executed on real objects and every successor checked on arrival; every history of length 1..4/5 (168k / 3.4M) without deduplication. After every history: the real objects hold exactly the model state (source, bytecode equal to a fresh compile, bindings), every stored program under both binding sets executed repeatedly equals freshly built objects holding the same abstract state (built through the other construction path), every exec inside the history gave what the state before it determines. Evidence reports states, transitions, traces validated.",
+         "Schedules: rscel has no shared mutable state and no synchronisation (audit re-run by the check, hits listed in the evidence), so controlled-scheduler exploration would see one schedule; the thread dimension is covered only by a free-running 16-thread differential labelled as not exhaustive.",
+         "DESIGN.md section 3, C11"),
+ "C12": ("model_checking",
+         "explicit-state enumeration of all reference graphs between named programs (every edge through every referencing construct) and of name-collision configurations, executed on the real context; graphs with a cycle and long chains run in isolated child processes on two stack sizes and two build profiles",
+         "All subsets of {variable, stored program} behind identifiers v and int, of {bound function, macro} in call position for g and int, field vs method, rebinding/re-adding; ALL 21952 / 1.87M reference graphs on 3/4 named programs with out-degree <= 1 where each edge goes through one of 9 constructs (bare identifier, arithmetic operand, macro body, macro range, call argument, has, coalesce, f-string, ?: branch): acyclic -> value by substitution, cycle reachable from the start -> an error, every cyclic graph run in child processes (checked and dev profile, 8 MiB main stack and 2 MiB thread stack): never an abort; chains of length 1..64 through each construct, plain and with a 1- and a 64-element loop inside the middle link; 711 JSON values of depth <= 2 bound from JSON vs directly. Complete for these bounds only.",
+         "A case counts as an abort when the child dies between its begin and end markers. `m.g` without a call when only a method exists is not fixed.",
+         "DESIGN.md section 3, C12"),
  "C13": ("exploration",
 
          "bounded exhaustive enumeration of literal spellings whose denoted value the generator knows by construction",
@@ -73,6 +83,11 @@ CHECKS = {
          "Every boundary instant (year 1, leap edges, epoch, US/EU DST transition seconds, 9999, chrono's ends) x 4 sub-second parts x every zone name of the tz database (quick: every 8th plus unusual ones) x the 10 accessors against civil arithmetic computed by the check; unknown zones; signed boundary durations; the three arithmetic laws, order and range errors over all pairs; every accepted unit spelling pair x 8 magnitudes x int/uint/double and all unit triples. Complete for these grids only.",
          "Trusted: chrono-tz's zone offsets; 7-digit unit constants accepted within 2e-6 relative. Known finding: getDayOfWeek(zone) is one-based (pinned by a repository test).",
          "DESIGN.md section 3, C16"),
+ "C17": ("exploration",
+         "bounded exhaustive enumeration of (syntactic position, nested position, filler) programs whose free variables and identifiers the generator knows by construction",
+         "46 syntactic positions (operands of every operator class, call arguments and receivers, macro ranges/bodies/nested bodies/predicates, reduce seed and step, f-string segments, index expressions, map keys and values, list elements, match scrutinees/patterns/arms, ternary conditions and branches incl. untaken ones, has/coalesce arguments, member chain roots, parentheses) x 4 fillers, and all ordered pairs of positions x fillers (8464 programs): Free(E) in params(E) in Idents(E); binding every reported name leaves no free variable unbound; filter_from_bindings removes exactly the names bound as variable (every subset of up to 2), function or macro. Complete for these bounds only.",
+         "Loop variables, function names and field names may be reported; only names that do not occur in the source are excluded.",
+         "DESIGN.md section 3, C17"),
 }
 
 NOT_YET = "check not built yet in this revision of /verif (work in progress; see DESIGN.md section 3 for the planned bounded-exhaustive check)"
